@@ -5,6 +5,8 @@
 package c08
 
 import (
+	"strings"
+	c06 "verif/props/c06"
 	"bytes"
 	"crypto/ecdsa"
 	"fmt"
@@ -110,7 +112,24 @@ func chainScalar(label string) *big.Int {
 	return v.Mod(v, new(big.Int).Sub(ref.N, big.NewInt(2))).Add(v, one)
 }
 
+// leadingZeroShapes: the smallest scalars whose multiple of G has a leading zero byte in exactly one coordinate (x only,
+// y only). ZA, the confirmation hashes and the KDF input all take coordinates at fixed width.
+func leadingZeroShapes() []named {
+	var out []named
+	for _, k := range c06.Keys() {
+		if strings.HasPrefix(k.Name, "d=pub-") {
+			out = append(out, named{strings.TrimPrefix(k.Name, "d="), k.D})
+		}
+	}
+	return out
+}
+
 func scalarSets(quick bool) (ds, rs []named) {
+	defer func() {
+		lz := leadingZeroShapes()
+		ds = append(ds, lz...)
+		rs = append(rs, lz...)
+	}()
 	n := ref.N
 	pat := patternRs()
 	nm := func(k int64) *big.Int { return new(big.Int).Sub(n, big.NewInt(k)) }
